@@ -170,4 +170,144 @@ theorem rt_readInet (a : Addr) (hip : a.ip.length = 4 ∨ a.ip.length = 16) (hp 
       simp only [hn, if_false, Int.toNat_natCast]; exact rt_pure _)
   simpa using this
 
+/-! ### binary column type descriptions -/
+
+def nativeId : Native → Nat
+  | .ascii => 0x01 | .bigint => 0x02 | .blob => 0x03 | .boolean => 0x04 | .counter => 0x05 | .decimal => 0x06
+  | .double => 0x07 | .float => 0x08 | .int => 0x09 | .timestamp => 0x0B | .uuid => 0x0C | .text => 0x0D
+  | .varint => 0x0E | .timeuuid => 0x0F | .inet => 0x10 | .date => 0x11 | .time => 0x12 | .smallint => 0x13
+  | .tinyint => 0x14 | .duration => 0x15
+
+mutual
+/-- `[option]` of the protocol spec (§4.2.5.2) for the types that have a binary id. -/
+def encTy : Ty → Bytes
+  | .native n => encShort (nativeId n)
+  | .list _ t => encShort 0x20 ++ encTy t
+  | .set _ t => encShort 0x22 ++ encTy t
+  | .map _ k v => encShort 0x21 ++ (encTy k ++ encTy v)
+  | .tuple ts => encShort 0x31 ++ (encShort (tysLen ts) ++ encTys ts)
+  | .udt _ ks name fs => encShort 0x30 ++ (encString ks ++ (encString name ++ (encShort (fieldsLen fs) ++ encFields fs)))
+  | .vector _ _ => []
+def encTys : List Ty → Bytes
+  | [] => []
+  | t :: ts => encTy t ++ encTys ts
+def encFields : List (Bytes × Ty) → Bytes
+  | [] => []
+  | (n, t) :: fs => (encString n ++ encTy t) ++ encFields fs
+def tysLen : List Ty → Nat
+  | [] => 0
+  | _ :: ts => tysLen ts + 1
+def fieldsLen : List (Bytes × Ty) → Nat
+  | [] => 0
+  | _ :: fs => fieldsLen fs + 1
+end
+
+mutual
+/-- Types the binary format can express (no frozen flag, no vector), well-formed, nested at most `fuel` deep. -/
+def BinTy : Ty → Nat → Prop
+  | _, 0 => False
+  | .native _, _ + 1 => True
+  | .list fr t, f + 1 => fr = false ∧ BinTy t f
+  | .set fr t, f + 1 => fr = false ∧ BinTy t f
+  | .map fr k v, f + 1 => fr = false ∧ BinTy k f ∧ BinTy v f
+  | .tuple ts, f + 1 => tysLen ts < 65536 ∧ BinTys ts f
+  | .udt fr ks name fs, f + 1 => fr = false ∧ WfStr ks ∧ WfStr name ∧ fieldsLen fs < 65536 ∧ BinFields fs f
+  | .vector _ _, _ + 1 => False
+def BinTys : List Ty → Nat → Prop
+  | [], _ => True
+  | t :: ts, f => BinTy t f ∧ BinTys ts f
+def BinFields : List (Bytes × Ty) → Nat → Prop
+  | [], _ => True
+  | (n, t) :: fs, f => WfStr n ∧ BinTy t f ∧ BinFields fs f
+end
+
+theorem nativeOfId_nativeId (n : Native) : nativeOfId (nativeId n) = some n := by
+  cases n <;> rfl
+
+/-- The field reader inside the UDT loop of `deserType`. -/
+def fieldReader (fuel : Nat) : M (Bytes × Ty) := do
+  let fname ← tag "type.udtfield" readString
+  let t ← deserType fuel
+  pure (fname, t)
+
+mutual
+theorem rt_deserType : ∀ (t : Ty) (fuel : Nat), BinTy t fuel → RT (deserType fuel) (encTy t) t
+  | _, 0, h => by cases h
+  | .native n, f + 1, _ => by
+    unfold deserType encTy
+    refine rt_bind0 (rt_noteDepth _) (?_)
+    have h1 := rt_tag "type.id" (rt_readShort (nativeId n) (by cases n <;> decide))
+    have := rt_bind (e2 := []) (b := Ty.native n) h1 (f := fun id => match id with
+      | 0x0000 => do
+        let str ← tag "type.customname" readString
+        match customParse str with
+        | .ok t => do noteDepth (129 - f + customDepthBound); pure t
+        | .error e => fail ("type.ct." ++ e)
+      | 0x0020 => do let t ← deserType f; pure (.list false t)
+      | 0x0021 => do let k ← deserType f; let v ← deserType f; pure (.map false k v)
+      | 0x0022 => do let t ← deserType f; pure (.set false t)
+      | 0x0030 => do
+        let ks ← tag "type.udtks" readString
+        let name ← tag "type.udtname" readString
+        let n ← tag "type.udtcount" readShort
+        let fields ← loopN n (do
+          let fname ← tag "type.udtfield" readString
+          let t ← deserType f
+          pure (fname, t))
+        pure (.udt false ks name fields)
+      | 0x0031 => do
+        let n ← tag "type.tuplelen" readShort
+        let ts ← loopN n (deserType f)
+        pure (.tuple ts)
+      | id =>
+        match nativeOfId id with
+        | some n => pure (.native n)
+        | none => fail "type.unknownid") (by
+        cases n <;> exact rt_pure _)
+    simpa using this
+  | .list fr t, f + 1, h => by
+    obtain ⟨rfl, ht⟩ := h
+    unfold deserType encTy
+    refine rt_bind0 (rt_noteDepth _) (rt_bind (rt_tag _ (rt_readShort 0x20 (by decide))) ?_)
+    exact rt_map (fun t => Ty.list false t) (rt_deserType t f ht)
+  | .set fr t, f + 1, h => by
+    obtain ⟨rfl, ht⟩ := h
+    unfold deserType encTy
+    refine rt_bind0 (rt_noteDepth _) (rt_bind (rt_tag _ (rt_readShort 0x22 (by decide))) ?_)
+    exact rt_map (fun t => Ty.set false t) (rt_deserType t f ht)
+  | .map fr k v, f + 1, h => by
+    obtain ⟨rfl, hk, hv⟩ := h
+    unfold deserType encTy
+    refine rt_bind0 (rt_noteDepth _) (rt_bind (rt_tag _ (rt_readShort 0x21 (by decide))) ?_)
+    exact rt_bind (rt_deserType k f hk) (rt_map (fun v => Ty.map false k v) (rt_deserType v f hv))
+  | .tuple ts, f + 1, h => by
+    obtain ⟨hl, hts⟩ := h
+    unfold deserType encTy
+    refine rt_bind0 (rt_noteDepth _) (rt_bind (rt_tag _ (rt_readShort 0x31 (by decide))) ?_)
+    refine rt_bind (rt_tag _ (rt_readShort (tysLen ts) hl)) ?_
+    exact rt_map (fun ts => Ty.tuple ts) (rt_types ts f hts)
+  | .udt fr ks name fs, f + 1, h => by
+    obtain ⟨rfl, hks, hname, hl, hfs⟩ := h
+    unfold deserType encTy
+    refine rt_bind0 (rt_noteDepth _) (rt_bind (rt_tag _ (rt_readShort 0x30 (by decide))) ?_)
+    refine rt_bind (rt_tag _ (rt_readString ks hks)) (rt_bind (rt_tag _ (rt_readString name hname))
+      (rt_bind (rt_tag _ (rt_readShort (fieldsLen fs) hl)) ?_))
+    exact rt_map (fun fields => Ty.udt false ks name fields) (rt_fields fs f hfs)
+  | .vector _ _, _ + 1, h => by cases h
+theorem rt_types : ∀ (ts : List Ty) (fuel : Nat), BinTys ts fuel →
+    RT (loopN (tysLen ts) (deserType fuel)) (encTys ts) ts
+  | [], _, _ => by simpa [tysLen, loopN, encTys] using rt_pure ([] : List Ty)
+  | t :: ts, f, h => by
+    unfold tysLen loopN encTys
+    exact rt_bind (rt_deserType t f h.1) (rt_map (fun r => t :: r) (rt_types ts f h.2))
+theorem rt_fields : ∀ (fs : List (Bytes × Ty)) (fuel : Nat), BinFields fs fuel →
+    RT (loopN (fieldsLen fs) (fieldReader fuel)) (encFields fs) fs
+  | [], _, _ => by simpa [fieldsLen, loopN, encFields] using rt_pure ([] : List (Bytes × Ty))
+  | (n, t) :: fs, f, h => by
+    unfold fieldsLen loopN encFields
+    refine rt_bind ?_ (rt_map (fun r => (n, t) :: r) (rt_fields fs f h.2.2))
+    unfold fieldReader
+    exact rt_bind (rt_tag _ (rt_readString n h.1)) (rt_map (fun t => (n, t)) (rt_deserType t f h.2.1))
+end
+
 end ScyllaVerif.C08
